@@ -1,0 +1,24 @@
+//go:build verif
+
+package ast
+
+// Contracts for the verification machinery in /verif (comment-only; no executable code).
+//
+// astValuesTyped / astResultTyped: the LR value discipline of the typed-tree builder (generated from the
+// productions literal and one type table, /verif/specs/gen/ebnf_values.gvc); see L-STACK in the spec package.
+
+//@ import "github.com/moorara/algo/parser/lr"
+//@ import "github.com/gardenbed/emerge/internal/ebnf/parser"
+
+//@ func Parse$1(i int, rhs []*lr.Value) (any, error)
+//@   split i 0 34
+//@   assumes @L-STACK astValuesTyped(i, rhs)
+//@   ensures @typed result1 == nil && 0 <= i && i <= 34 ==> astResultTyped(i, result0)
+
+//@ func Parse(filename string, src io.Reader) (*Grammar, error)
+//@   modifies heap
+//@   assumes @A-TABLES tablesOK()
+//@   clientinv = true
+//@   callsite ParseAndEvaluate assumes @L-STACK result1 == nil ==> result0 != nil && astResultTyped(0, result0.Val)
+//@   ensures @never-nil-nil result1 == nil ==> result0 != nil
+//@   ensures result1 != nil ==> result0 == nil
